@@ -536,6 +536,8 @@ class FullEngine(Engine):
                 p.st.write("CACHING", (), v.term)
                 return [(p, None)]
             raise Unsupported(f"store to class attribute {attr}")
+        if isinstance(recv, VOpaque) and recv.what.startswith("ext:"):
+            return [(p, None)]          # attribute of a third-party object (A10)
         if not isinstance(recv, VRef):
             raise Unsupported(f"store attribute on {type(recv).__name__}")
         out = []
@@ -643,11 +645,46 @@ class FullEngine(Engine):
     # ------------------------------------------------------------------ subscripts
     def ev_Subscript(self, e, p):
         if isinstance(e.slice, ast.Slice):
-            raise Unsupported("slice")
+            return self.ev_slice(e, p)
 
         def k1(q, recv):
             return bind(self.eval(e.slice, q), lambda r, idx: self.load_item(recv, idx, r))
         return bind(self.eval(e.value, p), k1)
+
+    def ev_slice(self, e, p):
+        """seq[lo:hi] with non-negative bounds (no step): a new list / tuple"""
+        sl = e.slice
+        if sl.step is not None:
+            raise Unsupported("slice with a step")
+
+        def bound(node, q, default):
+            if node is None:
+                return [(q, default)]
+            return [(r, v.term if isinstance(v, VInt) else None) for (r, v) in self.eval(node, q) if not isinstance(v, VRaise)]
+        out = []
+        for (q, recv) in self.eval(e.value, p):
+            if isinstance(recv, VRaise):
+                out.append((q, recv))
+                continue
+            seq, ecn = self.iter_seq(q, recv) if isinstance(recv, (VList, VSeq, VOwned)) else (None, None)
+            if seq is None:
+                raise Unsupported("slice of " + type(recv).__name__)
+            for (r, lo) in bound(sl.lower, q, z3.IntVal(0)):
+                for (r2, hi) in bound(sl.upper, r, T.Len(seq)):
+                    if lo is None or hi is None:
+                        raise Unsupported("slice bound")
+                    n = T.Len(seq)
+
+                    def clamp(b):       # Python's slice bound normalisation
+                        b1 = T.ite(b < 0, b + n, b)
+                        return T.ite(b1 < 0, z3.IntVal(0), T.ite(b1 > n, n, b1))
+                    lo2, hi2 = clamp(lo), clamp(hi)
+                    part = z3.SubSeq(seq, lo2, T.ite(hi2 > lo2, hi2 - lo2, z3.IntVal(0)))
+                    if isinstance(recv, VList):
+                        out.append((r2, self.new_list(r2, part, ecn)))
+                    else:
+                        out.append((r2, VSeq(part, ecn, "tuple")))
+        return out
 
     def load_item(self, recv, idx, p: Path):
         seq = None
@@ -838,6 +875,8 @@ class FullEngine(Engine):
             res = nxt
         for kwd in e.keywords:
             if kwd.arg is None:
+                if isinstance(e.func, ast.Attribute) and isinstance(e.func.value, ast.Name) and e.func.value.id in ("network",):
+                    continue        # **options passed to a third-party constructor: not modelled (A10)
                 raise Unsupported("**kwargs call")
             nxt = []
             for item in res:
@@ -881,6 +920,8 @@ class FullEngine(Engine):
     def call_external(self, dotted, args, kw, p):
         if dotted == "uuid.uuid4" and not args:
             return [(p, VConst(("uuid4",)))]
+        if dotted == "pyvis.network.Network":
+            return [(p.copy(), VRaise("Exception", "pyvis")), (p, VOpaque("ext:pyvis.network.Network"))]
         if dotted == "collections.deque" and len(args) == 1:
             sq, ecn = self.iter_seq(p, args[0])
             return [(p, self.new_list(p, sq, ecn, "deque"))]
@@ -1211,6 +1252,13 @@ class FullEngine(Engine):
             return [(p, VConst(("items", recv.term)))]
         if isinstance(recv, VDict) and name == "items":
             raise Unsupported("dict.items() of an argument dictionary")
+        if isinstance(recv, VOpaque) and recv.what.startswith("ext:"):
+            # a method of an unverified third-party object (A10): no effect on edgegraph state; it may raise
+            out = [(p.copy(), VRaise("AssertionError" if name == "add_edge" else "Exception", f"{recv.what}.{name}"))]
+            if name == "add_edge":
+                out.append((p.copy(), VRaise("Exception", f"{recv.what}.{name}")))
+            out.append((p, VOpaque("ext:result")))
+            return out
         raise Unsupported(f"method {name} of {type(recv).__name__}")
 
     # -- builtins ----------------------------------------------------------------------------------------------------
@@ -1267,6 +1315,10 @@ class FullEngine(Engine):
                         raise Unsupported("range with a symbolic step")
                     step = st_.as_long()
             return [(p, VConst(("range", start, stop, step)))]
+        if name == "enumerate" and len(args) == 1:
+            return [(p, VConst(("enumerate", args[0])))]
+        if name in ("hex", "id", "repr", "str") and len(args) == 1:
+            return [(p, VOpaque(name))]
         if name == "set" and not args:
             return [(p, self.new_set(p))]
         if name == "dict" and not args:
